@@ -72,4 +72,19 @@ TEXT = {
                  "wiring is visible; every tag is omitted and every announced constraint violated many times per run. Exploration.",
         "note": "Trusted: the harness's tag-to-field table (written from the documentation of the parameter file). Malformed text is C17's subject.",
     },
+    "C06": {
+        "technique": "rapidcheck property-based testing; differential of the grid-accelerated run against an all-pairs reference driven through the real narrow phase, plus a metamorphic single-voxel run",
+        "level": "For every generated tissue the forces, couplings, positions and polarisation produced with the spatial grid must equal "
+                 "those obtained by presenting every node / foreign-face pair to the same rules, for each of the three contact models. "
+                 "A dropped voxel column, a padding by the wrong cut-off or an off-by-one in the voxel loops changes the result in almost "
+                 "every non-trivial tissue. Exploration.",
+        "note": "Trusted: the replication of the pre-filters (curvature threshold, normal test, id test) and of the midpoint pass in the harness.",
+    },
+    "C07": {
+        "technique": "rapidcheck property-based testing; conservation invariant on whole tissues, independent-kernel range oracle, constructed single-pair configurations judged against the stated law",
+        "level": "Reciprocity is checked on whole tissues and on isolated node/face pairs; range and ownership with the independent closest-point "
+                 "kernel; direction, barycentric distribution and magnitude of the repulsion on constructed single-pair cases for all 25 "
+                 "class pairs and both sides, in each contact model. Exploration.",
+        "note": "Trusted: geom.hpp; the classification of 'forbidden side' per class pair follows the statement (inside an ordinary cell, outside an enclosing ECM, outside the enclosing cell for a nucleus).",
+    },
 }
